@@ -40,6 +40,12 @@ def run(ctx: Ctx):
             ctx.fail(clause, case, ev[idx].get("parts", ev[idx].get("back")), None)
     ctx.assumptions += ["parameter values are free of DQUOTE and control characters (the property's domain)",
                         "a one-element list and its element are the same parameter value (DESIGN.md section 3)"]
+    # ------------------------------------------------------------- SUITE: calls observed in the repository's own tests
+    from vf import suite
+    suite.step(ctx, "join", ["P:C08"])
+    # ------------------------------------------------------------- FRESH: history independence of returned objects (spec/Fresh.tla)
+    from vf import fresh
+    fresh.step(ctx, "C08")
     return ctx.finish(rule=(
         "all scalar values over {a A , ; : = ' ^ SP \\ % 2 C} up to length 3/4, all 2-3 element lists of values of length "
         "<=1/2, all pairs of parameters with mixed-case names, plus random longer Unicode maps; non-trivial = some value "
